@@ -37,7 +37,7 @@ TECHNIQUE = "Hypothesis grammar-aware mutators + structural blow-ups + raw bytes
 HANG_IS_VIOLATION = True  # termination is part of this property: a case over the limit twice (in its shard, then alone) is a violation
 RULE = (
     "case = (valid seed file of py/ts/js/rs, sequence of 1-4 byte/token-level mutations) | (structural blow-up kind, size n, language) | "
-    "raw bytes | empty/whitespace, under a drawn extension (known, upper-case, unknown, none +- shebang), between two healthy siblings. "
+    "raw bytes | empty/whitespace | (syntax zoo of the language with ONE literal re-typed: enumerated literal x value matrix),  under a drawn extension (known, upper-case, unknown, none +- shebang), between two healthy siblings. "
     "Non-trivial: the offending file differs from every valid seed and its language is recognised or the decode path is hit. Distinct = "
     "(mutator kinds, language, extension class, size bucket) + content hash."
 )
